@@ -9,7 +9,7 @@ for m in sorted(glob.glob(os.path.join(ROOT, "seeded", "*", "meta.json"))):
     title = (d.get("title") or "").replace("|", "/").strip()
     det = d.get("detection", {})
     how = det.get("how", "").replace("|", "/")
-    rows.append("| %s | %s | %s | %s |" % (sid, title[:110], det.get("status", "?"), how[:260]))
+    rows.append("| %s | %s | %s | %s |" % (sid, title[:110], det.get("status", "?"), how[:420]))
 n = len(rows)
 late = sum(1 for r in rows if "after strengthening" in r)
 text = "### 0.6 Seeded changes and the checks that catch them\n\n" \
@@ -17,7 +17,9 @@ text = "### 0.6 Seeded changes and the checks that catch them\n\n" \
        "(applies, builds, the touched packages' tests pass, its demonstration fails with it and passes without it) and\n" \
        "kept under /verif/seeded/<id>/ (patch.diff, demonstration, meta.json). %d of them were only caught after the\n" \
        "machinery was strengthened; what was added is in the last column. The check of the change's own property\n" \
-       "(`./check <id> quick`) is the one that catches it.\n\n" \
+       "(`./check <id> quick`) is the one that catches it, with two exceptions marked in the status column: C04-w3m2 breaks\n" \
+       "the retry clause of C05 and C07-w3m2 the no-leftover-sockets clause of C08, and it is those checks that report them.\n" \
+       "The how column is cut at 420 characters; the full text is in the meta.json.\n\n" \
        "| id | change | status | caught by (oracle [signature]) |\n|---|---|---|---|\n" % (n, late) + "\n".join(rows) + "\n\n"
 p = os.path.join(ROOT, "DESIGN.md")
 s = open(p).read()
